@@ -33,6 +33,9 @@ TB_CPS = [0x0b, 0x0c, 0x1c, 0x1d, 0x1e, 0x85, 0x2028, 0x2029]
 TB_UNITS = [chr(_c).encode('utf-8') for _c in TB_CPS]
 # bytes the driver's recogniser and json.loads also agree on (the UTF-8 bytes of the above)
 JL_ALLOWED |= set(b'\x1c\x1d\x1e\xe2\x80\xa8\xa9\xc2\x85')
+# Unicode white space that str.lstrip() removes (text-mode lines) but bytes.lstrip() / JSON do not
+UWS_CPS = [0x1c, 0x1d, 0x1e, 0x1f, 0x85, 0xa0, 0x1680, 0x2000, 0x2001, 0x2005, 0x200a, 0x2028, 0x2029, 0x202f, 0x205f, 0x3000]
+JL_ALLOWED |= set(b''.join(chr(_c).encode('utf-8') for _c in UWS_CPS))
 ASCII_WS = ' \t\n\r\x0b\x0c'
 JSON_WS = b' \t\n\r'
 # lines json.loads rejects with something else than JSONDecodeError (or accepts surprisingly)
@@ -104,7 +107,13 @@ class C19(Property):
     PID = 'C19'
     QUICK_BUDGET_S = 45
     THOROUGH_BUDGET_S = 700
-    RULE = ('three kinds of case. sl: a text (list of code points) given to iter_splitlines; exhaustive over '
+    RULE = ('six kinds of case (sl rl jl described first; then rf = reverse_iter_lines(preseek=False) with the file '
+            'position at every offset of small binary contents x block sizes 1, 2, 3, len+1, and random ones; in = '
+            'indent(text, margin, newline, key) over all short texts x 3 margins x 3 newlines x key bool/always, and random '
+            'longer ones; js = JSONLIterator(rel_seek=num/den) forward and reverse on text-mode files of single-byte '
+            'characters with a line break at or after the target, all files of <= 2-3 lines over 8 tokens x 9 fractions, '
+            'records of 4090..12289 bytes so that the line break lies in the 1st/2nd/3rd block the alignment loop reads, '
+            'and random ones; non-trivial = both directions yield something). sl: a text (list of code points) given to iter_splitlines; exhaustive over '
             '12 symbols (a, space, 2, 8, 9, each of the 7 line-break characters) up to length 4 (5 thorough), 8 symbols at length 5 (6 thorough), then '
             'random longer texts incl. other Unicode; non-trivial = the text contains a line break. rl: file '
             'content x blocksize x mode (binary/text, BytesIO or real file) given to reverse_iter_lines; '
@@ -129,7 +138,9 @@ class C19(Property):
             'contents of 5-70 KB with lines of 4095..20000 bytes read with block sizes 1000, 4096, 8191, 8192, 65536; the small '
             'contents again on real files of five kinds (rb, rb unbuffered, r+b, r utf-8, r utf-8 newline=\'\') and with the file '
             'position moved away from 0 before the reader gets the file (case key pre).')
-    ASSUMPTIONS = ['text is a sequence of Unicode scalar values (no lone surrogates); text-mode files hold valid UTF-8',
+    ASSUMPTIONS = ['text is a sequence of Unicode scalar values (no lone surrogates); text-mode files are opened as utf-8 and hold valid '
+                   'UTF-8, or (mode tl) are opened as latin-1 - there reverse_iter_lines fails on the code as it is: known finding '
+                   'C19-reverse-ignores-encoding, outside the model until the repair is in (probe ENC_OK)',
                    'a file object is its content plus a position: seek/read of a regular file or BytesIO return exactly the requested bytes',
                    'json.loads is modelled as a parameter; the driver instantiates it with a recogniser for integers, '
                    'escape-free strings, {} and [] and the harness only sends JSONL contents over a byte alphabet on which both agree',
@@ -137,11 +148,15 @@ class C19(Property):
                    'the oracle demands only blocksize independence there; a JSONL content with a line that starts (after JSON '
                    'whitespace) with a character lstrip() removes but JSON does not skip (\\v \\f, in text mode also FS GS RS US NEL '
                    'NBSP LS PS ...) is judged by the correspondence only',
-                   'json.loads ignores a trailing line break: false for binary lines with NUL bytes (UTF-16/32 detection), where '
-                   'forward mode (line with break) and reverse mode (line without) decode differently - known finding '
-                   'C19-jsonl-break-dependent-decoding, proposed repair in notes/proposed_fixes/']
-    CORRESPONDENCE_NAME = ('C19.Driver (iterSplitlines / reverseIterLines / jsonlForward, jsonlReverse) vs '
-                           'boltons.strutils.iter_splitlines, boltons.jsonutils.reverse_iter_lines, JSONLIterator')
+                   'rel_seek (js cases) is exercised where the alignment of the code terminates and works: text-mode files of '
+                   'single-byte characters, 0 <= rel_seek < 1, a line break at or after int(size*rel_seek) (computed in floats by '
+                   'the harness, like the code); the oracle asks only that reverse (reversed) + forward from the same rel_seek '
+                   'make up the objects of the file, wherever exactly the implementation aligns',
+                   'preseek=False (rf cases) is exercised on binary files only (after detach() the position of a text file is '
+                   'that of its read-ahead buffer)']
+    CORRESPONDENCE_NAME = ('C19.Driver (iterSplitlines, indent / reverseIterLines, reverseIterLinesText, reverseIterLinesFrom / '
+                           'jsonlForward, jsonlReverse, jsonlRelSeek) vs boltons.strutils.iter_splitlines, indent, '
+                           'boltons.jsonutils.reverse_iter_lines, JSONLIterator')
 
     def __init__(self, tier, seed):
         super().__init__(tier, seed)
@@ -158,9 +173,6 @@ class C19(Property):
         except ImportError:  # pragma: no cover (python < 3.11)
             import sre_parse as sp
             import sre_constants as sc
-        pat = strutils._line_ending_re
-        tree = sp.parse(pat.pattern, pat.flags)
-
         def expand_seq(seq):
             alts = [[]]
             for op, av in seq:
@@ -201,7 +213,19 @@ class C19(Property):
                 return out
             raise ValueError('unsupported regex node %r in _line_ending_re' % (op,))
 
-        alts = expand_seq(tree)
+        def from_regex():
+            pat = strutils._line_ending_re
+            tree = sp.parse(pat.pattern, pat.flags)
+            return expand_seq(tree)
+
+        try:
+            alts = from_regex()
+        except Exception as e:
+            # iter_splitlines no longer scans with a regex this translator can read (no _line_ending_re, a construct
+            # outside literal / class / alternation / x? ...): read the table off the BEHAVIOUR of the function on the
+            # finite alphabet the theorems quantify over - every single character, then every pair of break characters
+            print('note: _line_ending_re not readable (%r): line-ending table taken from the behaviour of iter_splitlines' % (e,))
+            alts = self.table_from_behaviour()
         self._alts = alts
         body = ', '.join('[' + ', '.join(str(c) for c in a) + ']' for a in alts)
         src = ('/- GENERATED by harness/bv/props/c19.py (regen) from the current boltons source - do not edit.\n'
@@ -209,7 +233,187 @@ class C19(Property):
                'namespace C19.Generated\n\n'
                'def lineEndings : List (List Nat) := [%s]\n\n'
                'end C19.Generated\n' % body)
-        return {'C19_LineEndings.lean': src}
+        out = {'C19_LineEndings.lean': src}
+        try:
+            lset, rset = self.probe_strip_sets()
+        except (Exception, CaseTimeout) as e:
+            # the code no longer strips a line in a way the probe understands: empty tables, so that the
+            # table lemma (stripSets_denote) and everything resting on it stops checking
+            print('note: strip-set probe failed: %r' % (e,))
+            lset, rset = [], []
+        try:
+            tset = self.probe_text_lstrip()
+        except (Exception, CaseTimeout) as e:
+            print('note: text-mode strip-set probe failed: %r' % (e,))
+            tset = []
+        self._strip = (lset, rset)
+        self._tset = tset
+        out['C19_StripSets.lean'] = (
+            '/- GENERATED by harness/bv/props/c19.py (regen) by running boltons.jsonutils.JSONLIterator on one-record\n'
+            '   probe files (one per byte value) with json.loads replaced by a recorder - do not edit.\n'
+            '   lstripSet : the bytes JSONLIterator.next removes from the front of a line before json.loads sees it\n'
+            '   rstripSet : the bytes it removes from the end of a line\n'
+            '   lstripSetT: the characters (code points) it removes from the front of a line of a TEXT-mode file -/\n'
+            'namespace C19.Generated\n\n'
+            'def lstripSet : List Nat := [%s]\n\n'
+            'def rstripSet : List Nat := [%s]\n\n'
+            'def lstripSetT : List Nat := [%s]\n\n'
+            'end C19.Generated\n' % (', '.join(map(str, lset)), ', '.join(map(str, rset)), ', '.join(map(str, tset))))
+        sset = [c for c in range(0x110000)
+                if not 0xd800 <= c < 0xe000 and len(('a' + chr(c) + 'b').splitlines()) != 1]
+        bset = [c for c in range(256) if len((b'a' + bytes([c]) + b'b').splitlines()) != 1]
+        self._pysplit = (sset, bset)
+        out['C19_PySplit.lean'] = (
+            '/- GENERATED by harness/bv/props/c19.py (regen) by evaluating str.splitlines / bytes.splitlines of the running\n'
+            "   interpreter on 'a' + chr(c) + 'b' for every code point / byte value c - do not edit.\n"
+            '   strBreakSet   : the characters at which str.splitlines splits\n'
+            '   bytesBreakSet : the bytes at which bytes.splitlines splits -/\n'
+            'namespace C19.Generated\n\n'
+            'def strBreakSet : List Nat := [%s]\n\n'
+            'def bytesBreakSet : List Nat := [%s]\n\n'
+            'end C19.Generated\n' % (', '.join(map(str, sset)), ', '.join(map(str, bset))))
+        C19.ENC_OK = self.probe_encoding_honoured()
+        self._eof_ok = self.probe_align_eof()
+        C19.EOF_OK = self._eof_ok
+        out['C19_RelSeek.lean'] = (
+            "/- GENERATED by harness/bv/props/c19.py (regen) by running JSONLIterator(rel_seek=0.9) on the text file '1\\n2'\n"
+            '   under a time limit - do not edit.\n'
+            '   alignStopsAtEof : does _align_to_newline return (standing at the end of the file) when no line break\n'
+            "                     follows the target?  false: it reads '' for ever there (the case is then outside the model's domain) -/\n"
+            'namespace C19.Generated\n\n'
+            'def alignStopsAtEof : Bool := %s\n\n'
+            'end C19.Generated\n' % ('true' if self._eof_ok else 'false'))
+        return out
+
+    EOF_OK = False
+    ENC_OK = False
+
+    @staticmethod
+    def probe_encoding_honoured():
+        """does reverse_iter_lines decode the lines of a latin-1 text file as latin-1?  (the code as it is always
+        uses utf-8: known finding C19-reverse-ignores-encoding; repaired by f1b0523 on r3-c19-work)"""
+        from boltons.jsonutils import reverse_iter_lines
+        try:
+            with time_limit(2):
+                f = io.TextIOWrapper(io.BytesIO(b'\xe9\nb'), encoding='latin-1')
+                return list(reverse_iter_lines(f)) == ['b', '\xe9']
+        except (Exception, CaseTimeout):
+            return False
+
+    @staticmethod
+    def probe_align_eof():
+        """does JSONLIterator(rel_seek=r) come back when no line break follows int(size*r)?  (the code as it is reads
+        '' for ever there; with the repair proposed on r3-c19-work it stays at the end of the file)"""
+        from boltons.jsonutils import JSONLIterator
+        try:
+            with time_limit(1.5):
+                f = io.TextIOWrapper(io.BytesIO(b'1\n2'), encoding='utf-8')
+                fwd = list(JSONLIterator(f, rel_seek=0.9))
+                f = io.TextIOWrapper(io.BytesIO(b'1\n2'), encoding='utf-8')
+                rev = list(JSONLIterator(f, rel_seek=0.9, reverse=True))
+            return fwd == [] and rev == [2, 1]
+        except (Exception, CaseTimeout):
+            return False
+
+    @staticmethod
+    def probe_text_lstrip():
+        """the same for text-mode files (lines are str): which characters does next() take off the front of a line?
+        Probed on every code point below U+3100 and on every character str.lstrip / str.isspace know about."""
+        import json as _json
+        from boltons import jsonutils
+        cands = set(range(0x3100)) | {c for c in range(0x3100, 0x110000)
+                                      if not 0xd800 <= c < 0xe000 and (chr(c).isspace() or (chr(c) + 'Q').lstrip() == 'Q')}
+        cands -= set(range(0xd800, 0xe000))
+        seen = []
+
+        def recorder(s, *a, **kw):
+            seen.append(s)
+            return 0
+        saved = _json.loads
+        saved_local = jsonutils.__dict__.get('loads')
+        saved_dec = _json.JSONDecoder.decode
+        tset = []
+        try:
+            _json.loads = recorder
+            _json.JSONDecoder.decode = lambda self_, s_, *a, **kw: recorder(s_)
+            if saved_local is saved:
+                jsonutils.loads = recorder
+            with time_limit(30):
+                for c in sorted(cands):
+                    del seen[:]
+                    f = io.TextIOWrapper(io.BytesIO((chr(c) + 'Q\n').encode('utf-8')), encoding='utf-8')
+                    for _ in jsonutils.JSONLIterator(f, ignore_errors=True):
+                        pass
+                    if seen == ['Q']:
+                        tset.append(c)
+                    elif seen != [chr(c) + 'Q']:
+                        raise ValueError('JSONLIterator handed json.loads %r for the text probe U+%04X' % (seen, c))
+        finally:
+            _json.loads = saved
+            _json.JSONDecoder.decode = saved_dec
+            if saved_local is saved:
+                jsonutils.loads = saved
+        return tset
+
+    @staticmethod
+    def probe_strip_sets():
+        """which bytes does JSONLIterator.next take off the front / the end of a line before it decodes it?
+        Read off the behaviour of the current code, not off its source text (any spelling of the stripping
+        is accepted): one probe file per byte value b, `b Q LF` and `Q b LF`, json.loads replaced by a
+        recorder for the duration.  A byte counts as stripped when json.loads is handed exactly b'Q'."""
+        import json as _json
+        from boltons import jsonutils
+        seen = []
+
+        def recorder(s, *a, **kw):
+            seen.append(s)
+            return 0
+        saved = _json.loads
+        saved_local = jsonutils.__dict__.get('loads')
+        saved_dec = _json.JSONDecoder.decode
+        lset, rset = [], []
+        try:
+            _json.loads = recorder
+            # a code that decodes through a JSONDecoder object instead of json.loads is observed just the same
+            _json.JSONDecoder.decode = lambda self_, s_, *a, **kw: recorder(s_)
+            if saved_local is saved:
+                jsonutils.loads = recorder
+            with time_limit(20):
+                for b in range(256):
+                    for which, probe in (('l', bytes([b]) + b'Q\n'), ('r', b'Q' + bytes([b]) + b'\n')):
+                        del seen[:]
+                        for _ in jsonutils.JSONLIterator(io.BytesIO(probe), ignore_errors=True):
+                            pass
+                        got = [bytes(x) if isinstance(x, (bytes, bytearray)) else
+                               (x.encode('utf-8', 'surrogatepass') if isinstance(x, str) else x) for x in seen]
+                        kept = (bytes([b]) + b'Q') if which == 'l' else (b'Q' + bytes([b]))
+                        if got == [b'Q']:
+                            (lset if which == 'l' else rset).append(b)
+                        elif got == [] and b >= 0x80:
+                            pass    # the code decoded the line itself before handing it on and could not: b was kept
+                        elif got != [kept]:
+                            raise ValueError('JSONLIterator handed json.loads %r for the probe %r' % (got, probe))
+        finally:
+            _json.loads = saved
+            _json.JSONDecoder.decode = saved_dec
+            if saved_local is saved:
+                jsonutils.loads = saved
+        return lset, rset
+
+    @staticmethod
+    def table_from_behaviour():
+        """the separators of iter_splitlines as its behaviour shows them: a character c is a line ending when
+        'a'+c+'b' comes back as ['a', 'b']; a pair of line-ending characters is ONE line ending when 'a'+x+y+'b' still
+        comes back as ['a', 'b'] (two line endings give ['a', '', 'b']); pairs first, as an alternation must try them"""
+        from boltons.strutils import iter_splitlines
+        with time_limit(60):
+            singles = [c for c in range(0x110000)
+                       if not 0xd800 <= c < 0xe000 and list(iter_splitlines('a' + chr(c) + 'b')) == ['a', 'b']]
+            if len(singles) > 64:
+                raise ValueError('iter_splitlines splits at %d different characters' % len(singles))
+            pairs = [[x, y] for x in singles for y in singles
+                     if list(iter_splitlines('a' + chr(x) + chr(y) + 'b')) == ['a', 'b']]
+        return pairs + [[c] for c in singles]
 
     def extra_checks(self):
         """the table the driver was compiled with is the one the translator just read from the source"""
@@ -218,9 +422,13 @@ class C19(Property):
         if alts is None or not d.available():
             return []
         got = d.query(['tbl'])[0]
-        want = 'E' + show_lines(alts, show_cps)
+        lset, rset = getattr(self, '_strip', ([], []))
+        sset, bset = getattr(self, '_pysplit', ([], []))
+        want = ('E' + show_lines(alts, show_cps) + ' L' + show_cps(lset) + ' R' + show_cps(rset)
+                + ' T' + show_cps(getattr(self, '_tset', [])) + ' S' + show_cps(sset) + ' B' + show_cps(bset)
+                + ' Z' + ('1' if getattr(self, '_eof_ok', False) else '0'))
         if got != want:
-            raise InfraError('driver was built with line-ending table %s, translator read %s' % (got, want))
+            raise InfraError('driver was built with tables %s, translator read %s' % (got, want))
         return []
 
     # ------------------------------------------------------------------ generation
@@ -270,6 +478,19 @@ class C19(Property):
             yield self.random_jl(rng)
         for j in range(1500 if th else 300):
             yield self.big_jl(rng, real=(j % 10 == 0))
+        # ---- rf: preseek=False from every position; in: indent
+        yield from self.small_rf(5 if th else 4, skip=3)
+        for _ in range(6000 if th else 600):
+            yield self.random_rf(rng)
+        yield from self.small_indent(4 if th else 3, skip=2)
+        for _ in range(8000 if th else 800):
+            yield self.random_indent(rng)
+        # ---- rl on text files in a single-byte encoding
+        yield from self.latin_rl(5 if th else 4, skip=3)
+        # ---- js: JSONLIterator with rel_seek
+        yield from self.small_js(3 if th else 2, extra=True)
+        for _ in range(6000 if th else 800):
+            yield self.random_js(rng)
         # ---- second helping of the size-dependent families, random this time
         yield from self.long_jl(rng, random_only=(3000 if th else 250))
         for _ in range(600 if th else 60):
@@ -298,10 +519,15 @@ class C19(Property):
                 for ign in (1, 0):
                     yield {'k': 'jl', 'c': hx(c), 'mode': mode, 'ign': ign}
         yield from self.tbreak_jl()
+        yield from self.uws_jl()
         yield from self.odd_error_jl()
         yield from self.long_jl(rng)
         yield from self.ratio_rl()
         yield from self.file_kinds()
+        yield from self.small_rf(3)
+        yield from self.small_indent(2)
+        yield from self.small_js(2)
+        yield from self.latin_rl(3)
         for _ in range(200 if self.thorough else 30):
             yield self.big_rl(rng)
 
@@ -331,6 +557,21 @@ class C19(Property):
                         for mode in ('t', 'b'):
                             yield {'k': 'jl', 'c': hx(c), 'mode': mode, 'ign': 1}
                         yield {'k': 'jl', 'c': hx(c), 'mode': 't', 'ign': 0}
+
+    def uws_jl(self):
+        """lines LED by a character str.lstrip() removes but bytes.lstrip() and JSON do not (FS GS RS US NEL NBSP
+        U+1680 U+2000.. LS PS U+202F U+205F U+3000): in a text-mode file such a line is the record behind the
+        character (or blank), in a binary file it is corrupt; also trailing (never stripped) and in the middle"""
+        for cp in UWS_CPS:
+            X = chr(cp).encode('utf-8')
+            for lines in ([X + b'1'], [b' ' + X + b'\t20'], [X], [X + X + b'"x"', b'7'], [b'1', X + b'20', b''],
+                          [b'1' + X], [b'[' + X + b']'], [b'7', X, b'{x']):
+                for sep, end in ((b'\n', b'\n'), (b'\r\n', b'')):
+                    c = sep.join(lines) + end
+                    for mode in ('t', 'b'):
+                        yield {'k': 'jl', 'c': hx(c), 'mode': mode, 'ign': 1}
+                    yield {'k': 'jl', 'c': hx(c), 'mode': 't', 'ign': 0}
+            yield {'k': 'jl', 'c': hx(b'1\n' + X + b'20\n'), 'mode': 'tf', 'ign': 1}
 
     def odd_error_jl(self):
         """corrupt records on which json.loads raises UnicodeDecodeError (also via UTF-16/32 detection),
@@ -499,6 +740,112 @@ class C19(Property):
                     yield {'k': 'rl', 'c': hx(c), 'bs': 2, 'mode': mode, 'pre': pre}
                     yield {'k': 'jl', 'c': hx(c), 'mode': mode, 'ign': 1, 'pre': pre}
 
+    BIN_MODES = ('b', 'bf', 'bu', 'br')
+    LATIN_UNITS = [b'a', b'\xe9', b'\xc3\xa9', b'\n', b'\r\n', b'\xff', b'\x85']
+
+    def latin_rl(self, nunits, skip=0):
+        """reverse_iter_lines on a text file opened with encoding='latin-1' (mode 'tl'): any byte is a character"""
+        for n in range(skip + 1 if skip else 0, nunits + 1):
+            for units in itertools.product(self.LATIN_UNITS, repeat=n):
+                c = b''.join(units)
+                for bs in sorted({1, 2, len(c) + 1}):
+                    yield {'k': 'rl', 'c': hx(c), 'bs': bs, 'mode': 'tl'}
+
+    def small_rf(self, nunits, skip=0):
+        """reverse_iter_lines(..., preseek=False) with the file position at every offset 0..len (binary files)"""
+        i = 0
+        for n in range(skip + 1 if skip else 0, nunits + 1):
+            for units in itertools.product(RL_UNITS, repeat=n):
+                c = b''.join(units)
+                for pos in range(0, len(c) + 1):
+                    for bs in sorted({1, 2, 3, len(c) + 1}):
+                        i += 1
+                        yield {'k': 'rf', 'c': hx(c), 'bs': bs, 'pos': pos,
+                               'mode': self.BIN_MODES[i % 4] if i % 53 == 0 else 'b'}
+
+    def random_rf(self, rng):
+        base = self.random_rl(rng)
+        c = unhx(base['c'])
+        return {'k': 'rf', 'c': base['c'], 'bs': base['bs'], 'pos': rng.randint(0, len(c)),
+                'mode': rng.choice(self.BIN_MODES) if rng.random() < 0.1 else 'b'}
+
+    IN_MARGINS = [[], [32], [62, 62], [9], [0xe9, 32]]
+    IN_NEWLINES = [[10], [13, 10], [], [0x2028], [124]]
+
+    def small_indent(self, maxlen, skip=0):
+        """indent(text, margin, newline, key) over all short texts x margins x newlines x key (bool / always)"""
+        for n in range(skip + 1 if skip else 0, maxlen + 1):
+            for t in itertools.product(SL_SMALL if n > 2 else SL_ALPHABET, repeat=n):
+                for mi, m in enumerate(self.IN_MARGINS[:3]):
+                    for ni, nl in enumerate(self.IN_NEWLINES[:3]):
+                        if n > 2 and (mi + ni) % 2:
+                            continue
+                        for key in ('bool', 'all'):
+                            yield {'k': 'in', 't': list(t), 'm': m, 'nl': nl, 'key': key}
+
+    def random_indent(self, rng):
+        t = self.random_sl(rng)['t']
+        return {'k': 'in', 't': t, 'm': rng.choice(self.IN_MARGINS), 'nl': rng.choice(self.IN_NEWLINES),
+                'key': rng.choice(['bool', 'bool', 'all'])}
+
+    # ---- JSONLIterator(rel_seek=num/den) on text-mode files of single-byte characters
+    JS_TOKENS = [b'1', b'20', b'"x"', b'', b' ', b'{x', b'[]', b'-7']
+    JS_FRACTIONS = [(0, 1), (1, 10), (1, 4), (1, 3), (1, 2), (2, 3), (3, 4), (9, 10), (99, 100)]
+
+    @staticmethod
+    def js_target(c, num, den):
+        """what _init_rel_seek computes: int(size * rel_seek), in floats like the code"""
+        return int(len(c) * (num / den))
+
+    @staticmethod
+    def js_in_domain(c, num, den):
+        """single-byte characters, and a line break at or after the target (without one the code's
+        alignment loop reads '' for ever)"""
+        if max(c, default=0) >= 128:
+            return False
+        if num == 0:
+            return True
+        t = C19.js_target(c, num, den)
+        return C19.EOF_OK or any(b in (10, 13) for b in c[t:])
+
+    def small_js(self, nlines, extra=False):
+        i = 0
+        if not extra:
+            # the line break the alignment loop looks for lies in its 1st / 2nd / 3rd block of 4096 characters
+            for w in (4090, 4094, 4095, 4096, 4097, 8190, 8191, 8192, 8193, 12289):
+                c = b'1\n"' + b'x' * w + b'"\n20\n'
+                for num, den in ((1, 1000), (1, 2), (1, 3)):
+                    yield {'k': 'js', 'c': hx(c), 'num': num, 'den': den, 'ign': 1, 'mode': 't'}
+        for n in range(1, nlines + 1):
+            for toks in itertools.product(self.JS_TOKENS, repeat=n):
+                for sep, end in ((b'\n', b'\n'), (b'\r\n', b'\r\n'), (b'\n', b'')):
+                    c = sep.join(toks) + end
+                    for num, den in self.JS_FRACTIONS:
+                        if not self.js_in_domain(c, num, den):
+                            continue
+                        i += 1
+                        if extra and i % 3:
+                            continue
+                        yield {'k': 'js', 'c': hx(c), 'num': num, 'den': den, 'ign': 0 if i % 4 == 0 else 1,
+                               'mode': 'tf' if i % 41 == 0 else 't'}
+
+    def random_js(self, rng):
+        for _ in range(50):
+            sep = rng.choice([b'\n', b'\n', b'\r\n'])
+            lines = [rng.choice(self.JS_TOKENS if rng.random() < 0.4 else self.JS_TOKENS[:3])
+                     for _ in range(rng.randint(1, 10))]
+            c = b''.join(l + (sep if rng.random() < 0.9 else rng.choice([b'\n', b'\r\n', b'\n\n', b'\r'])) for l in lines)
+            if rng.random() < 0.3:     # no final line break: a target inside the last line has no line break after it
+                c = c.rstrip(b'\r\n')
+            if rng.random() < 0.1:     # a first record longer than the block the alignment loop reads
+                c = b'"' + b'x' * rng.choice([4093, 4094, 4095, 4096, 8191, 9000]) + b'"' + sep + c
+            den = rng.choice([2, 3, 4, 7, 10, 100, 1000])
+            num = rng.randint(0, den - 1)
+            if self.js_in_domain(c, num, den):
+                return {'k': 'js', 'c': hx(c), 'num': num, 'den': den, 'ign': rng.choice([1, 1, 0]),
+                        'mode': 'tf' if rng.random() < 0.1 else 't'}
+        return {'k': 'js', 'c': hx(b'1\n'), 'num': 0, 'den': 1, 'ign': 1, 'mode': 't'}
+
     def deep_cases(self, budget_s):
         rng = self.rng
         # every character the current pattern mentions joins the alphabet
@@ -514,7 +861,13 @@ class C19(Property):
                 yield {'k': 'jl', 'c': hx(c), 'mode': 'b', 'ign': ign}
         while True:
             r = rng.random()
-            if r < 0.3:
+            if r < 0.03:
+                yield self.random_js(rng)
+            elif r < 0.05:
+                yield self.random_rf(rng)
+            elif r < 0.1:
+                yield self.random_indent(rng)
+            elif r < 0.3:
                 yield self.random_sl(rng)
             elif r < 0.65:
                 yield self.random_rl(rng)
@@ -606,6 +959,8 @@ class C19(Property):
         else:   # byte soup over the allowed alphabet
             alpha = [b'0', b'1', b'2', b'7', b'-', b'"', b'x', b' ', b'\t', b'\n', b'\n', b'\n', b'\r\n', b'\r',
                      b'\x0b', b'{', b'}', b'[', b']', b'\xc3\xa9', b'\xc3', b'\xa9']
+            if rng.random() < 0.3:
+                alpha = alpha + [chr(rng.choice(UWS_CPS)).encode('utf-8') for _ in range(3)]
             c = b''.join(rng.choice(alpha) for _ in range(rng.randint(0, 14)))
         if mode == 't' and not self.decodable(c):
             mode = 'b'
@@ -695,8 +1050,24 @@ class C19(Property):
         k = case['k']
         if k == 'sl':
             return 'sl ' + show_cps(case['t'])
+        if k == 'rl' and case['mode'] == 'tl':
+            # latin-1 decodes byte by byte (C19.reverse_lines_single_byte_codec): the byte lines are the text lines;
+            # outside the model while the code ignores the encoding of the file (known finding)
+            return 'rl %s %d' % (hx(content(case)), case['bs']) if self.ENC_OK else None
         if k == 'rl':
-            return 'rl %s %d' % (hx(content(case)), case['bs'])
+            # text mode: the model decodes every line too
+            return '%s %s %d' % ('rt' if case['mode'][0] == 't' else 'rl', hx(content(case)), case['bs'])
+        if k == 'rf':
+            return 'rf %s %d %d' % (hx(content(case)), case['pos'], case['bs'])
+        if k == 'in':
+            return 'in %s %s %s %s' % (show_cps(case['t']), show_cps(case['m']), show_cps(case['nl']), case['key'])
+        if k == 'js':
+            c = content(case)
+            if not set(c) <= JL_ALLOWED or not self.js_in_domain(c, case['num'], case['den']):
+                return None
+            if case['num'] == 0:
+                return 'js %d zero %s' % (case['ign'], hx(c))
+            return 'js %d %d %s' % (case['ign'], self.js_target(c, case['num'], case['den']), hx(c))
         if k == 'jl':
             c = content(case)
             if not set(c) <= JL_ALLOWED:
@@ -704,9 +1075,8 @@ class C19(Property):
             # json.loads has limits the recogniser has not: nesting depth, 4300 digits
             if b'[' * 100 in c or _DIGIT_RUN.search(c):
                 return None
-            text = case['mode'][0] == 't'
-            # the model strips what bytes.lstrip strips; str.lstrip strips more
-            if text and any(l.lstrip() != l.lstrip(ASCII_WS) for l in c.decode('utf-8').split('\n')):
+            # text mode: the model decodes the content and strips what str.lstrip strips (table lstripSetT)
+            if case['mode'][0] == 't' and not self.decodable(c):
                 return None
             return 'jl %s %d %s' % (case['mode'][0], case['ign'], hx(c))
         return None
@@ -731,6 +1101,8 @@ class C19(Property):
                 return raw, raw.close
             f = io.TextIOWrapper(raw, encoding='utf-8')
             return f, (lambda: None)
+        if mode == 'tl':      # a text file in a single-byte encoding
+            return io.TextIOWrapper(io.BytesIO(content), encoding='latin-1'), (lambda: None)
         path = os.path.join(self.tmpdir(), 'f.txt')
         with open(path, 'wb') as w:
             w.write(content)
@@ -765,14 +1137,16 @@ class C19(Property):
                 return ['?', repr(x)]
         return ['?', repr(x)[:50]]
 
-    def run_rl(self, content, bs, mode, pre=0):
+    def run_rl(self, content, bs, mode, pre=0, pos=None):
         from boltons.jsonutils import reverse_iter_lines
         f, close = self.open_file(content, mode)
         try:
             if pre:
                 f.read(pre)     # the caller had a look at the head of the file first
             out = []
-            for x in reverse_iter_lines(f, bs):
+            if pos is not None:
+                f.seek(pos)     # relative reverse line generation: the caller positions the file itself
+            for x in (reverse_iter_lines(f, bs) if pos is None else reverse_iter_lines(f, bs, preseek=False)):
                 out.append(self.enc_line(x))
                 if len(out) > len(content) + 5:
                     return {'exc': 'TooManyLines', 'lines': out}
@@ -780,22 +1154,51 @@ class C19(Property):
         finally:
             close()
 
-    def drain_jsonl(self, content, mode, ign, reverse, pre=0):
+    def drain_jsonl(self, content, mode, ign, reverse, pre=0, rel_seek=None, resume=None, poss=None):
+        """objects yielded by a plain loop and the exception that ended it; with resume=[] also every next()
+        result when the caller goes on after each error (appended to the list: ['o', obj] / ['e', name])"""
         from boltons.jsonutils import JSONLIterator
         f, close = self.open_file(content, mode)
         objs = []
+        first_exc = None
         try:
             if pre:
                 f.read(pre)
-            it = JSONLIterator(f, ignore_errors=bool(ign), reverse=reverse)
-            try:
-                for o in it:
+            if rel_seek is None:
+                it = JSONLIterator(f, ignore_errors=bool(ign), reverse=reverse)
+            else:
+                it = JSONLIterator(f, ignore_errors=bool(ign), reverse=reverse, rel_seek=rel_seek)
+            cap = len(content) + 5
+            n = 0
+            while True:
+                n += 1
+                if n > cap:
+                    if first_exc is None:
+                        first_exc = 'TooManyObjects'
+                    break
+                try:
+                    o = next(it)
+                except StopIteration:
+                    break
+                except CaseTimeout:
+                    raise
+                except Exception as e:
+                    if first_exc is None:
+                        first_exc = exc_name(e)
+                    if resume is None:
+                        break
+                    resume.append(['e', exc_name(e)])
+                    continue
+                if first_exc is None:
                     objs.append(o)
-                    if len(objs) > len(content) + 5:
-                        return objs, 'TooManyObjects'
-            except Exception as e:
-                return objs, exc_name(e)
-            return objs, None
+                    if poss is not None:
+                        try:
+                            poss.append(int(it.cur_byte_pos))
+                        except Exception as e:
+                            poss.append('?' + exc_name(e))
+                if resume is not None:
+                    resume.append(['o', o])
+            return objs, first_exc
         finally:
             close()
 
@@ -815,12 +1218,43 @@ class C19(Property):
                     whole = self.run_rl(c, len(c) + 1, case['mode'])
                     obs['whole'] = whole.get('lines')
                     return obs
+                if k == 'rf':
+                    c = content(case)
+                    obs = self.run_rl(c, case['bs'], case['mode'], pos=case['pos'])
+                    whole = self.run_rl(c, len(c) + 1, case['mode'], pos=case['pos'])
+                    obs['whole'] = whole.get('lines')
+                    return obs
+                if k == 'in':
+                    from boltons.strutils import indent
+                    text, margin, nl = (''.join(chr(c) for c in case[x]) for x in ('t', 'm', 'nl'))
+                    if case['key'] == 'bool':
+                        r = indent(text, margin, nl)
+                    else:
+                        r = indent(text, margin, nl, key=lambda line: True)
+                    return {'text': cps(r) if isinstance(r, str) else ['?']}
+                if k == 'js':
+                    c = content(case)
+                    if not self.js_in_domain(c, case['num'], case['den']):
+                        return {'exc': 'OutsideDomain'}
+                    rs = case['num'] / case['den']
+                    fo, fe = self.drain_jsonl(c, case['mode'], case['ign'], False, rel_seek=rs)
+                    ro, re_ = self.drain_jsonl(c, case['mode'], case['ign'], True, rel_seek=rs)
+                    ao, ae = self.drain_jsonl(c, case['mode'], case['ign'], False)
+                    return {'fwd': fo, 'fexc': fe, 'rev': ro, 'rexc': re_, 'all': ao, 'aexc': ae}
                 if k == 'jl':
                     c = content(case)
-                    fo, fe = self.drain_jsonl(c, case['mode'], case['ign'], False)
+                    fa = None if case['ign'] else []
+                    ra = None if case['ign'] else []
+                    fp = [] if case['mode'][0] == 'b' else None
+                    fo, fe = self.drain_jsonl(c, case['mode'], case['ign'], False, resume=fa, poss=fp)
                     # reverse mode starts from the end wherever the file position was
-                    ro, re_ = self.drain_jsonl(c, case['mode'], case['ign'], True, case.get('pre', 0))
-                    return {'fwd': fo, 'fexc': fe, 'rev': ro, 'rexc': re_}
+                    ro, re_ = self.drain_jsonl(c, case['mode'], case['ign'], True, case.get('pre', 0), resume=ra)
+                    obs = {'fwd': fo, 'fexc': fe, 'rev': ro, 'rexc': re_}
+                    if fp is not None:
+                        obs['fpos'] = fp
+                    if fa is not None:
+                        obs['fall'], obs['rall'] = fa, ra
+                    return obs
         except CaseTimeout:
             self._timeouts += 1
             return {'exc': 'CaseTimeout'}
@@ -852,14 +1286,33 @@ class C19(Property):
         if k == 'sl':
             text = ''.join(chr(c) for c in case['t'])
             return show_lines(obs['lines'], show_cps) + '|' + show_lines([cps(l) for l in text.splitlines()], show_cps)
-        if k == 'rl':
+        if k == 'in':
+            return 'X' + obs['exc'] if 'exc' in obs else show_cps(obs['text'])
+        if k == 'rl' and case['mode'] == 'tl':
+            def lat(l):
+                try:
+                    return hx(unhx(l[1]).decode('utf-8').encode('latin-1')) if l[0] == 's' else '!' + l[0] + l[1]
+                except UnicodeError:
+                    return '!s' + l[1]
+            return show_lines(obs['lines'], lat) + ('!' + obs['exc'] if 'exc' in obs else '')
+        if k == 'rl' and case['mode'][0] == 't':
+            s = show_lines(obs['lines'], lambda l: show_cps(cps(unhx(l[1]).decode('utf-8'))) if l[0] == 's' else '!' + l[0] + l[1])
+            return s + ('!' + obs['exc'] if 'exc' in obs else '')
+        if k in ('rl', 'rf'):
             want = 'b' if case['mode'][0] == 'b' else 's'
             s = show_lines(obs['lines'], lambda l: l[1] if l[0] == want else '!' + l[0] + l[1])
             return s + ('!' + obs['exc'] if 'exc' in obs else '')
-        if k == 'jl':
+        if k in ('jl', 'js'):
             def run(objs, e):
                 return (','.join(self.show_obj(o) for o in objs) if objs else '[]') + ('!' + e if e else '')
-            return 'F' + run(obs['fwd'], obs['fexc']) + ' R' + run(obs['rev'], obs['rexc'])
+            out = 'F' + run(obs['fwd'], obs['fexc']) + ' R' + run(obs['rev'], obs['rexc'])
+            if k == 'jl' and 'fpos' in obs:
+                out += ' P' + ('.'.join(str(x) for x in obs['fpos']) or '-')
+            if k == 'jl' and 'fall' in obs:
+                def allres(rs):
+                    return ','.join(self.show_obj(x[1]) if x[0] == 'o' else '!' + x[1] for x in rs) if rs else '[]'
+                out += ' A' + allres(obs['fall']) + ' B' + allres(obs['rall'])
+            return out
         return '?'
 
     # ------------------------------------------------------------------ oracle (independent of the model)
@@ -867,12 +1320,25 @@ class C19(Property):
         k = case['k']
         self._nt = False
         self.stats[k] = self.stats.get(k, 0) + 1
+        if obs.get('exc') == 'OutsideDomain':
+            return None
+        if k == 'rl' and case['mode'] == 'tl' and obs.get('exc') == 'UnicodeDecodeError' and 'lines' not in obs:
+            c = content(case)
+            if not all(self.decodable(l) for l in self.expected_lines_cr(c)):
+                # exactly what decoding the lines as utf-8 instead of the file's encoding does
+                return Failure('rl_encoding_ignored', 'reverse_iter_lines on a text file opened with encoding=latin-1, content %s: '
+                               'raises UnicodeDecodeError (the lines are decoded as utf-8 whatever the encoding of the file)'
+                               % self.brief(c))
         if 'exc' in obs:
             return Failure('raises', '%s case raised %s' % (k, obs['exc']))
         if k == 'sl':
             return self.oracle_sl(case, obs)
-        if k == 'rl':
+        if k in ('rl', 'rf'):
             return self.oracle_rl(case, obs)
+        if k == 'in':
+            return self.oracle_in(case, obs)
+        if k == 'js':
+            return self.oracle_js(case, obs)
         return self.oracle_jl(case, obs)
 
     def oracle_sl(self, case, obs):
@@ -899,8 +1365,34 @@ class C19(Property):
         pieces = c.split(b'\n')
         return [p[:-1] if (i < len(pieces) - 1 and p.endswith(b'\r')) else p for i, p in enumerate(pieces)]
 
+    def oracle_in(self, case, obs):
+        """indent() = newline.join of the lines of the text (str.splitlines, plus a final '' after a closing
+        line break), each given the margin when key(line)"""
+        t = case['t']
+        if any(c in FS_CPS for c in t):
+            self.stats['sl_outside_statement'] = self.stats.get('sl_outside_statement', 0) + 1
+            return None
+        text, margin, nl = (''.join(chr(c) for c in case[x]) for x in ('t', 'm', 'nl'))
+        lines = text.splitlines()
+        if t and t[-1] in BREAK_CPS:
+            lines.append('')
+        want = nl.join((margin + l) if (l or case['key'] == 'all') else l for l in lines)
+        self._nt = any(c in BREAK_CPS for c in t)
+        if obs['text'] != cps(want):
+            got = ''.join(map(chr, obs['text'])) if '?' not in obs['text'] else obs['text']
+            return Failure('indent', 'indent(%r, %r, %r%s) = %r, expected %r' % (
+                text, margin, nl, '' if case['key'] == 'bool' else ', key=always', got, want))
+        return None
+
+    @staticmethod
+    def expected_lines_cr(c):
+        """what bytes.splitlines-style reading gives (lone CR also a break): the pieces the code decodes one by one"""
+        return c.splitlines()
+
     def oracle_rl(self, case, obs):
         c = content(case)
+        if case['k'] == 'rf':
+            return self.oracle_rf(case, obs, c)
         text = case['mode'][0] == 't'
         got = obs['lines']
         kind = 's' if text else 'b'
@@ -917,9 +1409,70 @@ class C19(Property):
             return None
         want = self.expected_lines(c)[::-1]
         self._nt = len(want) >= 2 and case['bs'] < len(c)
+        if case['mode'] == 'tl':
+            # the characters of the file are its bytes read as latin-1 (got_b holds the yielded str as utf-8)
+            want_l = [l.decode('latin-1').encode('utf-8') for l in want]
+            if got_b != want_l:
+                tag = 'rl_encoding_ignored' if got_b == want and all(self.decodable(l) for l in want) else 'rl_lines'
+                return Failure(tag, 'reverse_iter_lines on a text file opened with encoding=latin-1, content %s, blocksize=%d: '
+                               'yields %s, expected %s' % (self.brief(c), case['bs'],
+                               [l.decode('utf-8') for l in got_b], [l.decode('latin-1') for l in want]))
+            return None
         if got_b != want:
             return Failure('rl_lines', 'reverse_iter_lines(%s, blocksize=%d, %s) = %s, expected %s'
                            % (self.brief(c), case['bs'], case['mode'], self.brief_lines(got_b), self.brief_lines(want)))
+        return None
+
+    def oracle_rf(self, case, obs, c):
+        """preseek=False with the file position at pos: the lines of the first pos bytes, last to first
+        (documented as 'relative reverse line generation'; JSONLIterator(rel_seek=..., reverse=True) rests on it)"""
+        got = obs['lines']
+        for l in got:
+            if l[0] != 'b':
+                return Failure('rl_type', 'reverse_iter_lines yielded %r in binary mode' % (l,))
+        got_b = [unhx(l[1]) for l in got]
+        head = c[:case['pos']]
+        what = 'reverse_iter_lines(%s at position %d, blocksize=%d, preseek=False, %s)' % (
+            self.brief(c), case['pos'], case['bs'], case['mode'])
+        if obs.get('whole') != got:
+            return Failure('rl_blocksize', '%s = %s differs from the one-block result %s' % (
+                what, self.brief_lines(got_b), self.brief_lines([unhx(l[1]) for l in obs.get('whole') or []])))
+        if has_lone_cr(head):
+            self.stats['rl_lone_cr'] = self.stats.get('rl_lone_cr', 0) + 1
+            return None
+        want = self.expected_lines(head)[::-1]
+        self._nt = len(want) >= 2 and case['bs'] < len(head)
+        if got_b != want:
+            return Failure('rf_lines', '%s = %s, expected %s' % (what, self.brief_lines(got_b), self.brief_lines(want)))
+        return None
+
+    def oracle_js(self, case, obs):
+        """rel_seek: the statement's 'same objects in forward and in reverse mode', read for two iterators started
+        at the same relative position: what the reverse one yields, reversed, followed by what the forward one
+        yields is what a plain forward pass yields (wherever exactly the implementation aligns the position).
+        Judged with ignore_errors only (otherwise the first corrupt line ends each pass somewhere else)."""
+        c = content(case)
+        if has_lone_cr(c) or exotic_lead(c, True) or not case['ign']:
+            self.stats['jl_outside_statement'] = self.stats.get('jl_outside_statement', 0) + 1
+            return None
+        want = []
+        for p in self.expected_lines(c):
+            if not p.strip(JSON_WS):
+                continue
+            try:
+                want.append(json.loads(p.decode('utf-8')))
+            except Exception:
+                pass
+        got = obs['rev'][::-1] + obs['fwd']
+        self._nt = bool(obs['rev']) and bool(obs['fwd'])
+
+        def same(a, b):
+            return len(a) == len(b) and all(type(x) is type(y) and x == y for x, y in zip(a, b))
+        if obs['fexc'] or obs['rexc'] or not same(got, want):
+            return Failure('js_partition', 'JSONLIterator(rel_seek=%d/%d, ignore_errors=True) on %s: reverse %s exc=%s, '
+                           'forward %s exc=%s; together they should be the objects of the file %s'
+                           % (case['num'], case['den'], self.brief(c), self.brief_objs(obs['rev']), obs['rexc'],
+                              self.brief_objs(obs['fwd']), obs['fexc'], self.brief_objs(want)))
         return None
 
     def oracle_jl(self, case, obs):
@@ -993,6 +1546,12 @@ class C19(Property):
                            % (case['mode'], case['ign'], self.brief(c), self.brief_objs(obs['rev']), obs['rexc'], self.brief_objs(want_r), bool(re_)))
         return None
 
+    def finding_rl_encoding_ignored(self, case, failure):
+        """ONLY: a text file in another encoding than utf-8 (mode 'tl'), a non-ASCII byte, and the observation is exactly
+        what decoding each line as utf-8 gives (UnicodeDecodeError, or the utf-8 reading of bytes that happen to be valid)"""
+        return (failure.tag == 'rl_encoding_ignored' and case.get('k') == 'rl' and case.get('mode') == 'tl'
+                and any(b >= 0x80 for b in content(case)))
+
     def finding_jl_break_dependent(self, case, failure):
         """ONLY: binary mode, a line with NUL bytes on which json.loads' verdict depends on the trailing line
         break, forward = the with-break reading and reverse = the without-break reading"""
@@ -1051,8 +1610,16 @@ class C19(Property):
                 if c not in BREAK_CPS and c != 97 and c != 32:
                     yield dict(case, t=t[:i] + [97] + t[i + 1:])
             return
-        text = case['mode'][0] == 't'
-        if len(case['mode']) > 1:
+        if k == 'in':
+            t = case['t']
+            for i in range(len(t)):
+                yield dict(case, t=t[:i] + t[i + 1:])
+            for key in ('m', 'nl'):
+                for i in range(len(case[key])):
+                    yield dict(case, **{key: case[key][:i] + case[key][i + 1:]})
+            return
+        text = case['mode'][0] == 't' and case['mode'] != 'tl'
+        if len(case['mode']) > 1 and case['mode'] != 'tl':
             yield dict(case, mode=case['mode'][0])
         if case.get('pre'):
             yield {kk: v for kk, v in case.items() if kk != 'pre'}
@@ -1088,9 +1655,15 @@ class C19(Property):
             seen.add(d)
             if k == 'rl':
                 yield dict(case, c=hx(d), bs=min(case['bs'], len(d) + 1))
+            elif k == 'rf':
+                yield dict(case, c=hx(d), bs=min(case['bs'], len(d) + 1), pos=min(case['pos'], len(d)))
             else:
                 yield dict(case, c=hx(d))
-        if k == 'rl':
+        if k == 'rf':
+            for pos in (case['pos'] - 1, case['pos'] // 2):
+                if 0 <= pos < case['pos']:
+                    yield dict(case, pos=pos)
+        if k in ('rl', 'rf'):
             for bs in (1, 2, case['bs'] - 1, case['bs'] // 2):
                 if 1 <= bs < case['bs']:
                     yield dict(case, bs=bs)
